@@ -203,6 +203,10 @@ def run(chk: core.Check):
         if len(shape) == 3 and stride3 > 1:
             # TLC checked all of them; replay every third vector-operator case, all scalar/ENO3 ones
             cases = [e for i, e in enumerate(cases) if e["cs"]["op"] in ("lap", "filt1", "stretch") or i % stride3 == 0]
+        ops_all = {e["cs"]["op"] for e in res.emits}
+        ops_replayed = {e["cs"]["op"] for e in cases}
+        if ops_all != ops_replayed:
+            raise core.MachineryError(f"operators {sorted(ops_all - ops_replayed)} were dropped by the replay sub-sampling")
         for e in cases:
             for backend, real_t in variants:
                 if real_t == np.float32 and e["cs"]["op"] == "eno3":
